@@ -121,6 +121,7 @@ func ContextInterface(pkg Package) *codegen.Interface {
 // Property represents a property of an ActivityStreams type.
 type Property interface {
 	VocabName() string
+	VocabURI() *url.URL
 	GetPublicPackage() Package
 	PropertyName() string
 	StructName() string
@@ -884,26 +885,65 @@ func (t *TypeGenerator) deserializationFn() (deser *codegen.Function) {
 			).Line())
 	}
 	deserCode = deserCode.Commentf("End: Known property deserialization").Line()
+	// A property is looked up under "<alias>:<name>" when the document aliases
+	// the property's vocabulary, so that is also the key the type must treat as
+	// known: one key prefix per vocabulary.
+	prefixVarOf := func(prop Property) string {
+		if prop.VocabURI() == nil {
+			return ""
+		}
+		n := prop.VocabName()
+		return strings.ToLower(n[:1]) + n[1:] + "KeyPrefix"
+	}
+	prefixURIs := make(map[string]string)
+	for _, prop := range t.allProperties() {
+		if v := prefixVarOf(prop); len(v) > 0 {
+			prefixURIs[v] = prop.VocabURI().String()
+		}
+	}
+	prefixVars := make([]string, 0, len(prefixURIs))
+	for v := range prefixURIs {
+		prefixVars = append(prefixVars, v)
+	}
+	sort.Strings(prefixVars)
+	prefixCode := jen.Empty()
+	for _, v := range prefixVars {
+		prefixCode = prefixCode.Id(v).Op(":=").Lit("").Line().If(
+			jen.List(
+				jen.Id("a"),
+				jen.Id("ok"),
+			).Op(":=").Id("aliasMap").Index(jen.Lit(prefixURIs[v])),
+			jen.Id("ok").Op("&&").Len(jen.Id("a")).Op(">").Lit(0),
+		).Block(
+			jen.Id(v).Op("=").Id("a").Op("+").Lit(":"),
+		).Line()
+	}
+	keyOf := func(prop Property, name string) *jen.Statement {
+		if v := prefixVarOf(prop); len(v) > 0 {
+			return jen.Id(v).Op("+").Lit(name)
+		}
+		return jen.Lit(name)
+	}
 	knownProps := jen.Commentf("Begin: Code that ensures a property name is unknown").Line()
 	for i, prop := range t.allProperties() {
 		if i > 0 {
 			knownProps = knownProps.Else()
 		}
 		knownProps = knownProps.If(
-			jen.Id("k").Op("==").Lit(prop.PropertyName()),
+			jen.Id("k").Op("==").Add(keyOf(prop, prop.PropertyName())),
 		).Block(
 			jen.Continue(),
 		)
 		if prop.HasNaturalLanguageMap() {
 			knownProps = knownProps.Else().If(
-				jen.Id("k").Op("==").Lit(prop.PropertyName() + "Map"),
+				jen.Id("k").Op("==").Add(keyOf(prop, prop.PropertyName()+"Map")),
 			).Block(
 				jen.Continue(),
 			)
 		}
 	}
 	knownProps = knownProps.Commentf("End: Code that ensures a property name is unknown").Line()
-	unknownCode := jen.Commentf("Begin: Unknown deserialization").Line().For(
+	unknownCode := jen.Commentf("Begin: Unknown deserialization").Line().Add(prefixCode).For(
 		jen.List(
 			jen.Id("k"),
 			jen.Id("v"),
